@@ -24,7 +24,7 @@ BUDGET = {'quick': (8, 240), 'thorough': (16, 1800)}
 
 
 def floors(tier):
-    return {'copies_checked': 2000, 'mutations_applied': 20000, 'plans_checked': 500, 'eq_pairs': 5000, 'len:statement_classes': 30}
+    return {'copies_checked': 2000, 'mutations_applied': 20000, 'plans_checked': 500, 'eq_pairs': 5000, 'plan_length_variants': 300, 'executed_step_pairs': 300, 'len:statement_classes': 30}
 
 
 def shared_mutables(a, b):
@@ -369,8 +369,54 @@ def run_shard(ctx):
                     fails.append(({'law': 'equal-steps-not-equal', 'cls': type(s1).__name__}, {}))
             except Exception as e:
                 fails.append(({'law': 'step-eq-raises', 'etype': type(e).__name__, 'cls': type(s1).__name__}, {'error': str(e)[:200]}))
+        # plans that are NOT built from equal steps: the empty plan, a proper prefix, the first step alone, the plan with one more
+        # step - in both orders.  Whole-plan equality must agree with equality of the step lists (plans of different length
+        # cannot print the same SQL).
+        import copy as _copy
+        try:
+            others = [('empty', QueryPlan())]
+            if len(p1.steps) >= 2:
+                others.append(('prefix', QueryPlan(steps=_copy.deepcopy(p1.steps[:-1]))))
+                others.append(('first-step', QueryPlan(steps=_copy.deepcopy(p1.steps[:1]))))
+            if prev_plan is not None and prev_plan.steps:
+                longer = _copy.deepcopy(p1.steps) + [_copy.deepcopy(prev_plan.steps[-1])]
+                longer[-1].step_num = len(longer) - 1
+                others.append(('one-more-step', QueryPlan(steps=longer)))
+            for name, q in others:
+                acc.count('plan_length_variants')
+                fails += eq_laws(p1, q, acc, 'plan-vs-' + name)
+                for x, y, order in ((p1, q, 'plan==variant'), (q, p1, 'variant==plan')):
+                    if bool(x == y) != bool(x.steps == y.steps):
+                        fails.append(({'law': 'plan-equality-disagrees-with-step-lists', 'variant': name, 'order': order},
+                                      {'plan_eq': repr(x == y), 'steps_eq': repr(x.steps == y.steps), 'lens': [len(x.steps), len(y.steps)]}))
+        except Exception as e:
+            fails.append(({'law': 'plan-eq-raises', 'etype': type(e).__name__, 'what': 'length-variants'}, {'error': str(e)[:200]}))
+        # steps that have been executed (the executor stores its answer on the step: set_result) against their fresh twins, in both
+        # orders, alone and inside plans: the stored answer is documented as not part of the comparison
+        try:
+            exec_steps = _copy.deepcopy(p1.steps)
+            for j, es in enumerate(exec_steps):
+                es.set_result({'rows': [[j, 'x']], 'columns': ['a', 'b']} if j % 2 == 0 else [j])
+            for es, s2 in zip(exec_steps, p2.steps):
+                acc.count('executed_step_pairs')
+                fails += eq_laws(es, s2, acc, 'executed-step-vs-fresh')
+                if monitors.struct(p1.steps) == monitors.struct(p2.steps):
+                    for x, y, order in ((es, s2, 'executed==fresh'), (s2, es, 'fresh==executed')):
+                        if (x == y) is not True:
+                            fails.append(({'law': 'executed-step-not-equal-to-fresh-twin', 'order': order, 'cls': type(es).__name__}, {}))
+            pe = QueryPlan(steps=exec_steps)
+            fails += eq_laws(pe, p2, acc, 'executed-plan-vs-fresh')
+            if monitors.struct(p1.steps) == monitors.struct(p2.steps) and ((pe == p2) is not True or (p2 == pe) is not True):
+                fails.append(({'law': 'executed-plan-not-equal-to-fresh-twin'}, {'pe==p2': repr(pe == p2), 'p2==pe': repr(p2 == pe)}))
+        except Exception as e:
+            fails.append(({'law': 'step-eq-raises', 'etype': type(e).__name__, 'what': 'executed-steps'}, {'error': str(e)[:200]}))
         if prev_plan is not None:
             fails += eq_laws(p1, prev_plan, acc, 'plan-vs-other')
+            try:
+                if bool(p1 == prev_plan) != bool(p1.steps == prev_plan.steps):
+                    fails.append(({'law': 'plan-equality-disagrees-with-step-lists', 'variant': 'other-plan', 'order': 'plan==other'}, {}))
+            except Exception:
+                pass
             for s1 in p1.steps[:2]:
                 for s2 in prev_plan.steps[:2]:
                     fails += eq_laws(s1, s2, acc, 'step-vs-other')
